@@ -1,4 +1,5 @@
 import TsRsVerif.Model.De
+import TsRsVerif.Model.DeFrag
 import TsRsVerif.Lemmas.TreeSound
 /-!
 # Every inhabitant of the generated type is accepted by the Deserialize model (up to leaves)
@@ -10,20 +11,6 @@ range, a string that is not one character for `char`), for all sufficient fuel. 
 namespace TsRs
 open Ts Tree Builtin De
 
-/-! ### JSON values with distinct keys -/
-mutual
-def wfJ : JVal → Bool
-  | .arr js => wfJL js
-  | .obj kvs => (decide ((kvs.map (·.1)).Nodup)) && wfJF kvs
-  | _ => true
-def wfJL : List JVal → Bool
-  | [] => true
-  | j :: js => wfJ j && wfJL js
-def wfJF : List (Str × JVal) → Bool
-  | [] => true
-  | (_, j) :: kvs => wfJ j && wfJF kvs
-end
-
 theorem wfJF_lookup : ∀ {kvs : List (Str × JVal)} {k : Str} {v : JVal}, wfJF kvs = true → JVal.lookup k kvs = some v → wfJ v = true
   | [], _, _, _, h => by simp [JVal.lookup] at h
   | (k', v') :: kvs, k, v, hw, h => by
@@ -34,48 +21,6 @@ theorem wfJF_lookup : ∀ {kvs : List (Str × JVal)} {k : Str} {v : JVal}, wfJF 
     · exact wfJF_lookup hw.2 h
 
 /-! ### the types the acceptance model covers -/
-mutual
-/-- no type parameters, no `PhantomData` / `Weak`, map keys are integer / string / char primitives, user types without arguments -/
-def tyOk (limit : Nat) : RTy → Bool
-  | .prim r => (primClass r).isSome
-  | .option t | .vec t | .slice t | .set t | .range t => tyOk limit t
-  | .arr t n => decide (n ≤ limit) && tyOk limit t       -- beyond the limit ts-rs writes `Array<T>` (and serde has no impl beyond 32)
-  | .tuple ts => tyOkL limit ts
-  | .map k v => (match k with
-      | .prim r => (match primClass r with
-        | some (.int _ _ _) | some .string | some .char => true
-        | _ => false)
-      | _ => false) && tyOk limit v
-  | .result t e => tyOk limit t && tyOk limit e
-  | .wrap w t => w != .phantom && w != .weak && tyOk limit t
-  | .named _ args => tyOkL limit args
-  | .param _ => false
-def tyOkL (limit : Nat) : List RTy → Bool
-  | [] => true
-  | t :: ts => tyOk limit t && tyOkL limit ts
-end
-
-mutual
-/-- the same for the field types of a generic item: type parameters are allowed (they are replaced by `tyOk` arguments) -/
-def tyOkP (limit : Nat) (ps : List Str) : RTy → Bool
-  | .prim r => (primClass r).isSome
-  | .option t | .vec t | .slice t | .set t | .range t => tyOkP limit ps t
-  | .arr t n => decide (n ≤ limit) && tyOkP limit ps t
-  | .tuple ts => tyOkPL limit ps ts
-  | .map k v => (match k with
-      | .prim r => (match primClass r with
-        | some (.int _ _ _) | some .string | some .char => true
-        | _ => false)
-      | _ => false) && tyOkP limit ps v
-  | .result t e => tyOkP limit ps t && tyOkP limit ps e
-  | .wrap w t => w != .phantom && w != .weak && tyOkP limit ps t
-  | .named _ args => tyOkPL limit ps args
-  | .param n => ps.contains n
-def tyOkPL (limit : Nat) (ps : List Str) : List RTy → Bool
-  | [] => true
-  | t :: ts => tyOkP limit ps t && tyOkPL limit ps ts
-end
-
 mutual
 /-- a type without parameters is in particular one with -/
 theorem tyOkP_of_tyOk (limit : Nat) (ps : List Str) : ∀ (t : RTy), tyOk limit t = true → tyOkP limit ps t = true
